@@ -32,6 +32,12 @@ CLAIMS = {
             "value as supplied (forbidden methods are untouched by normalisation) and the documented bounds (regenerated constants proved equal to 204/200/299/5/86400/-1). Tie: validate suite compares the exact error tree "
             "(shape from errors.Join, type, Value, Reason/Type/bounds), checks non-nil exported pointer types and the `cors: ` message prefix on the Go side.",
             '6/C05', 'Message texts are produced by fmt.Sprintf in Go and are checked by the harness only (prefix), not modelled.'),
+    'C06': ('proof', 'Lean 4 theorems (partial) + relational round-trip suite computed on the Go side + history correspondence',
+            "Theorems C06_ctor / C06_flags / C06_status / C06_render_ipv6 (Props/C06.lean): zero value + Reconfigure(&c) and NewMiddleware(c) are the same function of c; Config() carries the five switches; "
+            "the success status survives Config() + validation; IPv6 hosts are rendered with brackets. The full statement (C06_full: validation accepts Config() and yields the same behaviour; Config() stable after one round trip) "
+            "is NOT proved yet and rests on the tie: the `roundtrip` suite builds four middlewares (from c, from Config(), zero+Reconfigure, Reconfigure(Config())) and compares their Go responses pairwise in both debug modes "
+            "plus Config() stability; the `history` suite includes Reconfigure(Config()) steps; the `validate` suite compares Config() with the model's.",
+            '6/C06', 'PARTIAL: only the clauses named above are theorems; origins/methods/header lists and max-age round trips rest on the differential and relational suites.'),
     'C08': ('proof', 'Lean 4 theorem on the sequential state machine + history correspondence',
             "Theorems C08 / C08_error_iff / C08_obs (Props/C08.lean): for every state and every Config that validation rejects, Reconfigure returns the "
             "error and the model state (configuration, debug) is literally unchanged, hence all responses and Config() too. Tie: random histories "
@@ -54,6 +60,17 @@ CLAIMS = {
             "Vary/ACAO/ACAC/ACEH is untouched and Vary is only appended to; a passthrough middleware is the identity. Tie: serve suite with an inner handler recording "
             "call count, pointer identity of writer and request, and that its own output reaches the recorder unchanged.",
             '6/C11', 'Pointer identity, exactly-once and empty body are runtime facts observed by the harness, not theorems.'),
+    'C12': ('proof', 'Lean 4 non-interference theorem over an ownership model instantiated with regenerated install facts + adversarial history harness',
+            "Theorems C12.installs_safe / config_fresh / no_request_path_writes / handler_gets_same_args (decide over facts regenerated from the source on every run: every header-map write on a path that continues into the wrapped handler is "
+            "Header.Add/Set (fresh) or a slice of the current request; Config() stores only fresh slices; the request path never writes through the configuration or to package-level variables), C12_noninterference (with these facts an adversary "
+            "overwriting every cell it can reach cannot change singleton or configuration-owned cells that later calls read) and C12_history (a response depends on state, request and pre-set headers only). "
+            "Tie: history and serve suites run with -adversarial (the harness overwrites every slice of the Config passed in, of every Config() result, and - inside the wrapped handler - of the request and response header maps) and are compared with the model.",
+            '6/C12', 'PARTIAL w.r.t. Go aliasing: that the extractor classifies every Go expression correctly (v[:1] shares, []string{x} and Header.Add/Set allocate, slices.Clone/strings.Split/Elems allocate) is trusted and exercised by the adversarial harness, not proved.'),
+    'C13': ('proof', 'Lean 4 theorems (partial: self-match, shape of accepted patterns, grammar-independent rejections) + differential tie on grammar-directed strings',
+            "Theorems C13_self (an accepted pattern without `*.`/`:*`, presented verbatim as Origin within the length cap, is parsed by the request-side lexer into an origin the pattern denotes), C13_accepted_shape (scheme non-empty, at most 64 bytes, not `file`; "
+            "https never with an IP host; an explicit port never the scheme's default), C13_reject_null/_star/_file/_no_sep/_bad_first_byte (Props/C13.lean). C13_accept_full (every string of the documented grammar is accepted) and the remaining "
+            "single-defect rejections are NOT proved yet and rest on the `lex` suite (ParsePattern verdict and Reason, Parse results on grammar-directed strings, every maximum at once, single-defect mutations).",
+            '6/C13', 'PARTIAL: relative to the oracles (idna for xn-- labels, IPv6 netip) and to the model of the plain-ASCII IDNA rule; acceptance of the whole documented grammar is tie-only.'),
     'C14': ('proof', 'Lean 4 equivalence proof model = specification (induction over fuel/lines/elements; strict total order on byte strings) + differential tie',
             "Theorems C14 / C14_sound / C14_browser / C14_wf (Props/C14.lean): for every SortedSet maintained by Add and every sequence of field lines over arbitrary bytes, "
             "the model of headers.Check (windowed comma cut of maxLen+3 bytes, bounded OWS trimming with its check-before-test order, global empty-element counter, IndexAfter on the "
@@ -61,6 +78,11 @@ CLAIMS = {
             "ones are allowed names in strictly increasing order. Corollaries: no unallowed name is ever approved; a browser's sorted unique list of allowed names is approved. "
             "Tie: acrh suite (headers.Check and TrimOWS directly, elements around the length cut-off, 0-3 OWS bytes, 15/16/17 empties, split lines) and the ACRH decision bit of the serve suite.",
             '6/C14', 'C14_browser is proved for a single unpadded field line; tolerance of padded / split browser lists follows from C14 itself but is not yet stated as a separate theorem.'),
+    'C15': ('proof', 'Lean 4 theorems (partial: `*`/Authorization order, permutation-invariance of the violation multiset and of acceptance) + relational twins suite computed on the Go side',
+            "Theorems C15_star_auth (both orders of `*` and Authorization, with duplicates and case variants, both credential modes, give identical internal results), C15_errors_perm (the violations of a permuted Config are a permutation "
+            "of the original's) and C15_accept_perm (permuting any of the four lists preserves acceptance) (Props/C15.lean). The full statement C15_full (twins answer every request identically) is NOT proved yet; it rests on the `twins` suite, "
+            "which builds a twin by permuting/duplicating entries, re-casing header names, re-spelling normalisable methods and adding safelisted names, and compares the two Go middlewares' responses on derived requests in both debug modes.",
+            '6/C15', 'PARTIAL: identical behaviour of twins is tie-only (needs order-independence of the three set folds and C01 for the tree).'),
     'C16': ('proof', 'Lean 4 theorem (value-provenance invariant of the preflight buffer) + differential tie',
             "Theorems C16 / C16_fail / C16_distinct / C16_accepted (Props/C16.lean): debug off, any preflight: status is the single regenerated failure status or the configured "
             "success status (distinct for accepted configurations); with the failure status nothing but Vary changes; every header value the middleware sets is `*`, `true`, "
